@@ -289,7 +289,7 @@ func (e *Env) proxy(name string, c *elton.Context) error {
 		st = 200
 	}
 	c.WriteHeader(st)
-	if resp.Body != nil {
+	if resp.Body != nil && req.Method != "HEAD" { // like a real origin, a HEAD answer has the headers only
 		_, _ = c.Write(resp.Body)
 	}
 	return c.Next()
